@@ -362,6 +362,7 @@ func Walk(g *Graph, h Harness, opt Options) *Result {
 	}
 	recompute()
 	dirty := false
+	lastSteps := 0
 	markGroup := func(gid int) {
 		if !groupDone[gid] {
 			groupDone[gid] = true
@@ -379,10 +380,12 @@ func Walk(g *Graph, h Harness, opt Options) *Result {
 			res.TimedOut = true
 			break
 		}
-		if dirty {
+		if dirty && lastSteps == 0 {
+			// distances are refreshed lazily: only when the previous walk found nothing to do
 			recompute()
 			dirty = false
 		}
+		lastSteps = 0
 		s0 := -1
 		for k := 0; k < len(initOrder); k++ {
 			c := initOrder[(initPos+k)%len(initOrder)]
@@ -419,10 +422,6 @@ func Walk(g *Graph, h Harness, opt Options) *Result {
 				res.TimedOut = true
 				break
 			}
-			if dirty {
-				recompute()
-				dirty = false
-			}
 			// pick next edge from any candidate state: an uncovered group, else
 			// one that moves toward an uncovered group
 			var cands []int
@@ -434,6 +433,10 @@ func Walk(g *Graph, h Harness, opt Options) *Result {
 				}
 			}
 			if len(cands) == 0 {
+				if dirty {
+					recompute()
+					dirty = false
+				}
 				for _, s := range cur {
 					if dist[s] < 0 {
 						continue
@@ -456,6 +459,7 @@ func Walk(g *Graph, h Harness, opt Options) *Result {
 				obs, err = h.Project()
 			}
 			res.Steps++
+			lastSteps++
 			oc := ""
 			if err == nil {
 				oc = Canon(obs)
